@@ -118,6 +118,30 @@ class C10(Prop):
                             mode="mixed" if i % 2 else "fifo", unsub_p=0.15)
             out.append(Case("time", "threads", [("locktrace", ["1"]), ("pipe", [pipe])], evs,
                             {"kind": "time-locktrace"}))
+        # lock traces of the other thread-safe suites (harness field `ltrace`, any suite): finalize_threads chains,
+        # group_by over SubjectThreads, share/ref_count, the subject family — no re-lock, acyclic held-before
+        for name, cap in (("c15", 1500), ("c20", 1000), ("c11", 1000), ("subject", 1000)):
+            try:
+                if name == "subject":
+                    # (not through C06's plugin: it draws its lock-level cases from this one)
+                    from .. import subjgen as sg
+                    # no unsubscription from inside a callback (`sub (u k)`): C10 assumes non re-entrant callers,
+                    # a subscriber closing its own slot while it is being called re-locks that slot
+                    hs = [sg.rand_history(rng, rng.randint(4, 16), behavior=False) for _ in range(cap * 2)]
+                    hs = [h for h in hs if not any(isinstance(x, list) and x and x[0] == "u" for op in h for x in op)]
+                    cs = [sg.mk_case("subject", "threads", h, "random", rng=rng) for h in hs[:cap]]
+                else:
+                    cs = [c for c in importlib.import_module(f"vlib.props.{name}").PROP.cases("quick", seed)
+                          if c.flavor == "threads" and c.suite in ("finalize", "groupby", "share")]
+            except Exception as ex:            # pragma: no cover
+                print(f"note: C10 skips the {name} lock traces: {ex}")
+                continue
+            rng.shuffle(cs)
+            for c in cs[: cap if tier == "quick" else cap * 5]:
+                d = c.copy()
+                d.fields = [("ltrace", ["1"])] + d.fields
+                d.meta = {"kind": name + "-locktrace"}
+                out.append(d)
         # one-preemption interleavings of two SubjectThreads operations on the real code (no panic / no hang)
         from .. import injgen as ig
         out += ig.cases(tier, seed)
